@@ -32,7 +32,11 @@ SubSub == [n \in NamesSub |-> IF n = "p" THEN {"p", "pq"} ELSE {n}]
 (* command sequence is printed.                                              *)
 VARIABLE cmds
 gvars == <<d, m, b, h, oD, oM, oH, oP, oE, l, cmds>>
-CONSTANTS MaxCmds, GenCrash, Emit
+CONSTANTS MaxCmds, GenCrash, Emit,
+          Focus,        \* the commands the generator may issue ( {} = all )
+          FullOnly      \* TRUE: requests carry whole, uncorrupted files only
+Allowed(op) == Focus = {} \/ op \in Focus
+Whole(r) == ~FullOnly \/ (r.lo = 1 /\ r.hi = NB /\ r.dv = r.v)
 
 Quiet == m.thr = {} /\ m.vq = {} /\ m.fq = {} /\ m.val = NoJob /\ m.fin = NoJob /\ m.rec = ""
 Cmd(c) == /\ Quiet /\ Len(cmds) < MaxCmds /\ cmds' = Append(cmds, c)
@@ -47,21 +51,27 @@ Internal ==
 GenNext ==
   /\ UNCHANGED <<oD, oM, oH, oP, oE, l>>
   /\ \/ (Internal /\ UNCHANGED cmds)
-     \/ \E r \in Requests :
+     \/ \E r \in Requests : Allowed("recv") /\ Whole(r) /\
           Prepare(r.n, r.v, r.lo, r.hi, r.dv)
           /\ Cmd([op |-> "recv", n |-> r.n, v |-> r.v, lo |-> r.lo, hi |-> r.hi, dv |-> r.dv])
-     \/ \E r \in Requests : r.dv = r.v /\ r.lo = 1 /\ r.hi = NB
+     \/ \E r \in Requests : Allowed("prepare") /\ r.dv = r.v /\ r.lo = 1 /\ r.hi = NB
           /\ Prepare(r.n, r.v, r.lo, r.hi, r.dv) /\ Cmd([op |-> "prepare", n |-> r.n, v |-> r.v, lo |-> r.lo, hi |-> r.hi, dv |-> r.dv])
-     \/ \E n \in Names : AnsStatus(n) /\ Cmd([op |-> "status", n |-> n])
-     \/ \E r \in Requests : r.dv = r.v /\ AnsReceived(r.n, r.v, r.lo, r.hi)
+     \/ \E n \in Names : Allowed("status") /\ AnsStatus(n) /\ Cmd([op |-> "status", n |-> n])
+     \/ \E r \in Requests : Allowed("received") /\ Whole(r) /\ r.dv = r.v /\ AnsReceived(r.n, r.v, r.lo, r.hi)
           /\ Cmd([op |-> "received", n |-> r.n, v |-> r.v, lo |-> r.lo, hi |-> r.hi, dv |-> r.v])
-     \/ \E n \in Names : AgePart(n) /\ Cmd([op |-> "age", n |-> n])
-     \/ \E n \in Names : (CleanStray(n) \/ CleanLoop(n)) /\ Cmd([op |-> "clean"])
-     \/ \E n \in Names : TimerFire(n) /\ Cmd([op |-> "timer", n |-> n])
-     \/ ExpireCache /\ Cmd([op |-> "expire"])
-     \/ \E n \in Names, k \in Blocks : Overwrite(n, k)
+     \* (one two-part query per sequence, single blocks: it would otherwise crowd out the other commands
+     \* of the random walks, which choose uniformly among successors)
+     \/ \E r1, r2 \in Requests : Allowed("received2") /\ r1.dv = r1.v /\ r2.dv = r2.v /\ r1 # r2 /\ b.query = 0
+          /\ r1.lo = r1.hi /\ r2.lo = r2.hi /\ AnsReceived2(r1, r2)
+          /\ Cmd([op |-> "received2", n |-> r1.n, v |-> r1.v, lo |-> r1.lo, hi |-> r1.hi, dv |-> r1.v,
+                   n2 |-> r2.n, v2 |-> r2.v, lo2 |-> r2.lo, hi2 |-> r2.hi])
+     \/ \E n \in Names : Allowed("age") /\ AgePart(n) /\ Cmd([op |-> "age", n |-> n])
+     \/ \E n \in Names : Allowed("clean") /\ (CleanStray(n) \/ CleanLoop(n)) /\ Cmd([op |-> "clean"])
+     \/ \E n \in Names : Allowed("timer") /\ TimerFire(n) /\ Cmd([op |-> "timer", n |-> n])
+     \/ Allowed("expire") /\ ExpireCache /\ Cmd([op |-> "expire"])
+     \/ \E n \in Names, k \in Blocks : Allowed("overwrite") /\ Overwrite(n, k)
           /\ Cmd([op |-> "overwrite", n |-> n, k |-> k, ext |-> IF d.part[n] # Nil THEN ".part" ELSE ".full"])
-     \/ GenCrash /\ Crash /\ Cmd([op |-> "restart"])
+     \/ GenCrash /\ Allowed("restart") /\ Crash /\ Cmd([op |-> "restart"])
 GenSpec == GenInit /\ [][GenNext]_gvars
 
 \* the design and the observation specifications with every variable of this module
